@@ -49,11 +49,13 @@ Section TInit.
     - intros t Ht. cbn [tph thl taux_init]. split; [reflexivity|]. apply nth_overflow. unfold helds. rewrite map_length. exact Ht.
   Qed.
 
-  Lemma tinit_ok : Conc.cfg_ok (tview) (TInv N (valid_init k ths) (own_init ths) k) (tinit_cfg fuel k ths).
+  Lemma tinit_ok : Conc.cfg_ok (tview) (TInv N (valid_init k ths) (own_init ths) k N) (tinit_cfg fuel k ths).
   Proof.
     exists (taux_init k ths). split.
     - intros _. split; [apply TInvS_init|]. cbn [Conc.trace tinit_cfg]. split; [cbn; lia|split; [reflexivity|split]].
-      + intros n t. cbn [town thl taux_init]. apply own_init_spec. apply Hwf.
+      + intros n t. cbn [town thl taux_init]. rewrite (own_init_spec ths n t (proj1 Hwf)). split; [|tauto].
+        intros Hin. split; [|exact Hin]. destruct (Nat.lt_ge_cases t N) as [Hl|Hl]; [exact Hl|].
+        rewrite nth_overflow in Hin; [contradiction|]. unfold helds. rewrite map_length. exact Hl.
       + intros t. reflexivity.
     - intros t p Hp. cbn [tinit_cfg Conc.threads] in Hp. rewrite nth_error_map in Hp.
       destruct (nth_error ths t) as [[os H]|] eqn:E; [|discriminate]. injection Hp as <-.
@@ -62,7 +64,7 @@ Section TInit.
       { unfold tview. cbn [thl tph taux_init]. f_equal. unfold helds.
         rewrite (nth_indep _ [] (snd (os, H))) by (rewrite map_length; exact Ht).
         rewrite map_nth. rewrite (nth_error_nth ths t (os, H) E). reflexivity. }
-      rewrite Hv. cbn [fst snd]. apply (safe_tthread N (valid_init k ths) (valid_zero k ths Hwf)). exact Ht.
+      rewrite Hv. cbn [fst snd]. apply (safe_tthread N (valid_init k ths) (valid_zero k ths Hwf) (own_init ths) k N (le_n N)). exact Ht.
   Qed.
 End TInit.
 
@@ -120,14 +122,14 @@ Section TTheorems.
   Let N := List.length ths.
 
   Lemma treach_Inv c : Conc.reach (tinit_cfg fuel k ths) c ->
-    exists a, TInv N (valid_init k ths) (own_init ths) k (Conc.shared c) a (Conc.trace c).
+    exists a, TInv N (valid_init k ths) (own_init ths) k N (Conc.shared c) a (Conc.trace c).
   Proof. intros Hr. exact (Conc.reach_Inv (tinit_ok fuel k ths Hwf) Hr). Qed.
 
   Theorem tagged_no_double_get c : Conc.reach (tinit_cfg fuel k ths) c -> nowrap k (Conc.trace c) ->
     exists own, mon_run (own_init ths) (Conc.trace c) = Some own.
   Proof. intros Hr Hnw. destruct (treach_Inv c Hr) as (a & HI). destruct (HI Hnw) as (_ & _ & T1 & _). eauto. Qed.
 
-  Lemma tnonidle_open g a tr t : InvTT (own_init ths) k g a tr -> tph a t <> TIdle -> opens t tr <> 0.
+  Lemma tnonidle_open g a tr t : InvTT (own_init ths) k N g a tr -> tph a t <> TIdle -> opens t tr <> 0.
   Proof. intros (_ & _ & _ & T3) Hp. rewrite T3. destruct (tph a t); cbn; try lia. congruence. Qed.
 
   Theorem tagged_unique_holder c : Conc.reach (tinit_cfg fuel k ths) c -> nowrap k (Conc.trace c) ->
@@ -143,12 +145,14 @@ Section TTheorems.
     exists (town a), (tlst a). split; [exact T1|]. split; [apply (TS_chain HS)|]. split; [apply (TS_lnd HS)|]. split.
     - intros n Hin. apply (TS_lin HS) in Hin. split.
       + destruct (valid_init k ths n) eqn:E; [reflexivity|]. apply (TS_valid HS) in E. congruence.
-      + destruct (town a n) as [t|] eqn:E; [|reflexivity]. apply T2 in E. apply (TS_held HS) in E. congruence.
+      + destruct (town a n) as [t|] eqn:E; [|reflexivity]. apply T2 in E. destruct E as [_ E]. apply (TS_held HS) in E. congruence.
     - intros n Hv Ho. pose proof (TS_st HS n) as Hst. unfold tst_ok in Hst.
       destruct (tst a n) as [|t|] eqn:Es.
       + apply (TS_valid HS) in Es. congruence.
       + right. exists t. destruct Hst as [Hst|Hst].
-        * apply T2 in Hst. congruence.
+        * assert (Hlt : (t < N)%nat).
+          { destruct (Nat.lt_ge_cases t N) as [Hl|Hl]; [exact Hl|]. rewrite (proj2 (TS_out HS t Hl)) in Hst. contradiction. }
+          assert (E : town a n = Some t) by (apply T2; split; assumption). congruence.
         * eapply tnonidle_open; eauto. intros E. rewrite E in Hst. discriminate.
       + left. apply (TS_lin HS). exact Es.
   Qed.
@@ -171,11 +175,14 @@ Section TTheorems.
     - intros n. split.
       + intros Hin. apply (TS_lin HS) in Hin. split.
         * destruct (valid_init k ths n) eqn:E; [reflexivity|]. apply (TS_valid HS) in E. congruence.
-        * destruct (town a n) as [t|] eqn:E; [|reflexivity]. apply T2 in E. apply (TS_held HS) in E. congruence.
+        * destruct (town a n) as [t|] eqn:E; [|reflexivity]. apply T2 in E. destruct E as [_ E]. apply (TS_held HS) in E. congruence.
       + intros [Hv Ho]. apply (TS_lin HS). pose proof (TS_st HS n) as Hst. unfold tst_ok in Hst.
         destruct (tst a n) as [|t|] eqn:Es; try reflexivity; exfalso.
         * apply (TS_valid HS) in Es. congruence.
-        * rewrite Hidle in Hst. destruct Hst as [Hst|Hst]; [|discriminate]. apply T2 in Hst. congruence.
+        * rewrite Hidle in Hst. destruct Hst as [Hst|Hst]; [|discriminate].
+          assert (Hlt : (t < N)%nat).
+          { destruct (Nat.lt_ge_cases t N) as [Hl|Hl]; [exact Hl|]. rewrite (proj2 (TS_out HS t Hl)) in Hst. contradiction. }
+          assert (E : town a n = Some t) by (apply T2; split; assumption). congruence.
     - intros f cn Hlen. apply tdrain_spec; assumption.
   Qed.
 End TTheorems.
